@@ -98,6 +98,10 @@ fn probe_tag_type(x: u32) -> (&'static str, Option<u32>, bool) {
         && !(id == x.wrapping_add(1))
         && !(t == x.wrapping_add(1))
         && !(t == TagTypeId::from(x ^ 0x8000_0000))
+        && TagType::Custom(x) == id
+        && id == TagType::Custom(x)
+        && TagType::Custom(x) == x
+        && u32::from(TagType::Custom(x)) == x
         && match t {
             TagType::Custom(c) => c == x,
             _ => true,
@@ -113,6 +117,8 @@ fn probe_mem_area_type(x: u32) -> (&'static str, Option<u32>, bool) {
         && id == t
         && t == id
         && !(MemoryAreaTypeId::from(x.wrapping_add(1)) == t)
+        && id == MemoryAreaType::Custom(x)
+        && MemoryAreaType::Custom(x) == id
         && match t {
             MemoryAreaType::Custom(c) => c == x,
             _ => true,
